@@ -38,6 +38,52 @@ Qed.
 Lemma concat_chunks {A} (L : nat) (xs : list A) : concat (chunks L xs) = xs.
 Proof. destruct L as [|l]; cbn [chunks concat]; [apply app_nil_r | apply concat_chunks_aux]. Qed.
 
+(* ---- what ANOTHER stream's requests do to an instance's cache: its call id
+   differs, so whatever it puts, finds or evicts, this call's entry is either
+   still the right one or gone *)
+Lemma cfind_cdel_other k k' c : beqb k k' = false -> cfind k (cdel k' c) = cfind k c.
+Proof.
+  intro H. induction c as [|[k0 v0] c IH]; [reflexivity|]. cbn [cdel filter fst cfind].
+  destruct (beqb k' k0) eqn:E'; cbn [negb].
+  - apply beqb_eq in E'. subst k0. rewrite H. exact IH.
+  - cbn [cfind]. destruct (beqb k k0); [reflexivity | exact IH].
+Qed.
+
+Lemma cfind_firstn k n c v : cfind k (firstn n c) = Some v -> cfind k c = Some v.
+Proof.
+  revert c; induction n as [|n IH]; intros c H; [discriminate H|].
+  destruct c as [|[k0 v0] c]; [discriminate H|]. cbn [firstn cfind] in *.
+  destruct (beqb k k0); [exact H | now apply IH].
+Qed.
+
+Lemma cache_ok_cput_other cid info max cid' info' c :
+  beqb cid cid' = false -> cache_ok cid info c -> cache_ok cid info (cput max cid' info' c).
+Proof.
+  intros Hne H. destruct max as [|m]; cbn [cput]; [exact H|]. intros v Hv.
+  apply cfind_firstn in Hv. cbn [cfind] in Hv. rewrite Hne, (cfind_cdel_other _ _ _ Hne) in Hv. now apply H.
+Qed.
+
+Lemma cache_ok_cget_other cid info max cid' c v c' :
+  beqb cid cid' = false -> cache_ok cid info c -> cget max cid' c = Some (v, c') -> cache_ok cid info c'.
+Proof.
+  intros Hne H Hg. destruct max as [|m]; cbn [cget] in Hg; [discriminate Hg|].
+  destruct (cfind cid' c) as [v0|]; [|discriminate Hg]. injection Hg as <- <-.
+  intros w Hw. cbn [cfind] in Hw. rewrite Hne, (cfind_cdel_other _ _ _ Hne) in Hw. now apply H.
+Qed.
+
+(* one request of another stream (call id cid', any call token) on one instance *)
+Lemma other_stream_preserves {ctoken} (open_call : ctoken -> option callinfo) cid info max cid' (ct : ctoken) c :
+  beqb cid cid' = false -> cache_ok cid info c ->
+  cache_ok cid info (snd (resolve open_call max c cid' ct))
+  /\ forall info', cache_ok cid info (cput max cid' info' c).
+Proof.
+  intros Hne H. split; [|intro info'; now apply cache_ok_cput_other].
+  unfold resolve. destruct (cget max cid' c) as [[v c']|] eqn:Eg.
+  - cbn [snd]. eapply cache_ok_cget_other; eauto.
+  - destruct (open_call ct) as [i'|]; [|exact H]. destruct (beqb (ci_id i') cid'); cbn [snd]; [|exact H].
+    now apply cache_ok_cput_other.
+Qed.
+
 (* ---------------------------------------------------------------- generic *)
 Section Refinement.
   Context {state inp raw mid sbytes token ctoken V : Type}.
@@ -58,6 +104,7 @@ Section Refinement.
   Variable mth : bytes.
   Variable schema_of : callinfo -> bytes.
   Variable refusal : frame.
+  Variable env : nat -> (nat -> cache) -> (nat -> cache).
   Variable vw : bytes -> frame -> list V.
   Variable info : callinfo.
   Variable schema : bytes.
@@ -67,6 +114,9 @@ Section Refinement.
   Hypothesis Hcur : forall x, open_cur (seal_cur x) = Some x.
   Hypothesis Hcall : forall x, open_call (seal_call x) = Some x.
 
+  (* the other streams never touch this call's entry except to evict it: their
+     call ids differ (see [other_stream_preserves] below) *)
+  Hypothesis Henv : forall k cs, caches_ok cid info cs -> caches_ok cid info (env k cs).
   Hypothesis Hmth : ci_method info = mth.
   Hypothesis Hschema : schema_of info = schema.
 
@@ -101,7 +151,7 @@ Section Refinement.
   Lemma exch_client_view ins :
     (forall r, In r ins -> cast_http cast1 cast2 info r = cast_p r) ->
     forall k caches s, caches_ok cid info caches ->
-    resps_view vw (exch_client step cast1 cast2 ser deser seal_cur open_cur open_call cmax route mth schema_of refusal
+    resps_view vw (exch_client step cast1 cast2 ser deser seal_cur open_cur open_call cmax route mth schema_of refusal env
                      k caches (seal_cur (cid, ser s)) (seal_call info) ins)
     = flat_map (vw schema) (pipe_loop step cast_p s ins).
   Proof.
@@ -114,22 +164,22 @@ Section Refinement.
     { intros c0 e Ec. rewrite resps_view_cons. unfold refused. cbn [resp_schema rs_class rs_frames flat_map].
       change (resps_view vw []) with (@nil V). rewrite (Hcastvw r e Ec). apply app_nil_r. }
     destruct (cast1 r) as [m|e].
-    - destruct (open_request_ok (caches (route k)) s (Hok _)) as (c' & Ho & Hc'').
+    - destruct (open_request_ok (env k caches (route k)) s (Henv k caches Hok _)) as (c' & Ho & Hc'').
       rewrite Ho. destruct (cast2 info m) as [i|e]; rewrite <- Hr.
       + destruct (step s i) as [s' outs fin|e] eqn:Es.
         * apply Hnofin in Es. subst fin. cbn [rs_tok].
           rewrite resps_view_cons. cbn [resp_schema rs_class rs_schema rs_frames].
-          rewrite Hschema, (IH Hc'), flat_map_app; [reflexivity|]. now apply caches_ok_upd.
+          rewrite Hschema, (IH Hc'), flat_map_app; [reflexivity|]. apply caches_ok_upd; [now apply Henv | exact Hc''].
         * cbn [rs_tok]. rewrite resps_view_cons. cbn [resp_schema rs_class rs_schema rs_frames].
           rewrite Hschema. change (resps_view vw []) with (@nil V). apply app_nil_r.
       + cbn [refused rs_tok]. apply (Hrefused c'). now symmetry.
-    - rewrite <- Hr. cbn [refused rs_tok]. apply (Hrefused (caches (route k))). now symmetry.
+    - rewrite <- Hr. cbn [refused rs_tok]. apply (Hrefused (env k caches (route k))). now symmetry.
   Qed.
 
   Theorem http_exch_view caches s0 pre ins :
     (forall r, In r ins -> cast_http cast1 cast2 info r = cast_p r) ->
     caches_ok cid info caches ->
-    resps_view vw (http_exch step cast1 cast2 ser deser seal_cur open_cur seal_call open_call cmax route mth schema_of refusal
+    resps_view vw (http_exch step cast1 cast2 ser deser seal_cur open_cur seal_call open_call cmax route mth schema_of refusal env
                      info schema caches s0 pre ins)
     = flat_map (vw schema) (pre ++ pipe_loop step cast_p s0 ins).
   Proof.
@@ -161,7 +211,7 @@ Section Refinement.
 
   Lemma prod_client_view : forall fuel ticks k caches s,
     (length ticks <= fuel)%nat -> caches_ok cid info caches ->
-    resps_view vw (prod_client step ser deser seal_cur open_cur open_call L cut cmax route mth schema_of refusal
+    resps_view vw (prod_client step ser deser seal_cur open_cur open_call L cut cmax route mth schema_of refusal env
                      fuel k caches (seal_cur (cid, ser s)) (seal_call info) ticks)
     = flat_map (vw schema) (pipe_loop step (@inl inp frame) s ticks).
   Proof.
@@ -169,18 +219,18 @@ Section Refinement.
     - destruct ticks; [reflexivity | cbn [length] in Hlen; lia].
     - destruct ticks as [|t r]; [reflexivity|].
       cbn [prod_client]. unfold prod_req.
-      destruct (open_request_ok (caches (route k)) s (Hok _)) as (c' & Ho & Hc'). rewrite Ho.
+      destruct (open_request_ok (env k caches (route k)) s (Henv k caches Hok _)) as (c' & Ho & Hc'). rewrite Ho.
       destruct (produce step L cut s (t :: r) 0 []) as [[fs stop] rest] eqn:Ep.
       apply produce_spec in Ep as (d & -> & Hp & Hl). cbn [app]. rewrite Hp.
       rewrite resps_view_cons. unfold token_resp at 1. cbn [resp_schema rs_class rs_schema rs_frames].
       rewrite Hschema, flat_map_app. f_equal.
       destruct stop as [| |s']; cbn [token_resp rs_tok after]; try reflexivity.
-      apply IH; [cbn [length] in Hlen, Hl; lia | now apply caches_ok_upd].
+      apply IH; [cbn [length] in Hlen, Hl; lia | apply caches_ok_upd; [now apply Henv | exact Hc']].
   Qed.
 
   Theorem http_prod_view caches s0 pre ticks :
     caches_ok cid info caches ->
-    resps_view vw (http_prod step ser deser seal_cur open_cur seal_call open_call L cut cmax route mth schema_of refusal
+    resps_view vw (http_prod step ser deser seal_cur open_cur seal_call open_call L cut cmax route mth schema_of refusal env
                      info schema caches s0 pre ticks)
     = flat_map (vw schema) (pre ++ pipe_loop step (@inl inp frame) s0 ticks).
   Proof.
@@ -274,7 +324,7 @@ Qed.
    method kind and every input; the legacy code only where [cast_safe] *)
 Lemma casts_agree lg i r :
   is_producer (i_kind i) = false -> In r (raws i) -> lg = false \/ cast_safe i = true ->
-  cast_http (cast_reg (i_kind i)) cast_rt (call_info lg (i_kind i)) r = cast_pipe r.
+  cast_http (cast_reg (i_kind i)) cast_rt (call_info lg (i_kind i) (i_ocol i)) r = cast_pipe r.
 Proof.
   intros Ep Hin Hs. unfold raws in Hin. apply in_map_iff in Hin as (v & <- & _).
   unfold cast_http, cast_reg, cast_rt, call_info. cbn [ci_inschema]. rewrite Ep.
@@ -288,11 +338,11 @@ Qed.
 
 Lemma http_resps_view lg i :
   lg = false \/ cast_safe i = true ->
-  resps_view vf (http_resps_gen lg i) = flat_map (vf out_schema) (pre [] i ++ loop i).
+  resps_view vf (http_resps_gen lg i) = flat_map (vf (out_schema i)) (pre [] i ++ loop i).
 Proof.
   intro Hs. unfold http_resps_gen, loop. destruct (is_producer (i_kind i)) eqn:Ep.
-  - apply http_prod_view; try reflexivity. intro n. apply cache_ok_nil.
-  - apply http_exch_view; try reflexivity.
+  - apply http_prod_view; try reflexivity; [intros k cs H; exact H|]. intro n. apply cache_ok_nil.
+  - apply http_exch_view; try reflexivity; [intros k cs H; exact H| | | |].
     + exact sstep_exch_nofin.
     + intros r e H. unfold cast_pipe in H. destruct (fst r); inversion H; reflexivity.
     + intros r Hin. now apply casts_agree.
@@ -328,10 +378,18 @@ Qed.
 Definition emit_turn (v : Z) : tscript := {| t_logs := []; t_act := AEmit; t_value := v; t_meta := [] |}.
 Definition dyn_cast_witness (col : coltype) : input :=
   {| i_kind := MDynExch; i_reqid := str "rq"; i_loglevel := []; i_initlogs := []; i_initfail := None; i_header := None;
-     i_turns := [emit_turn 1; emit_turn 2]; i_col := col; i_ins := [[10%Z]; [20%Z; 1%Z]];
+     i_ocol := str "v"; i_turns := [emit_turn 1; emit_turn 2]; i_col := col; i_ins := [[10%Z]; [20%Z; 1%Z]];
      i_L := 0; i_capevery := false; i_cmax := 4096; i_route := [0%nat; 1%nat]; i_compress := false |}.
 
 Lemma dyn_cast_legacy_refuted :
   spec_ok (dyn_cast_witness CI32) (legacy_model (dyn_cast_witness CI32)) = false
   /\ spec_ok (dyn_cast_witness CBadName) (legacy_model (dyn_cast_witness CBadName)) = false.
 Proof. split; vm_compute; reflexivity. Qed.
+
+(* ---------------------------------------------------------------- histories *)
+From VR Require Model.C11H.
+Lemma history_meets_spec h : C11H.spec_ok h (C11H.model h) = true.
+Proof.
+  unfold C11H.spec_ok, C11H.model. induction (C11H.h_calls h) as [|i l IH]; [reflexivity|].
+  cbn [map C11H.all2]. now rewrite model_meets_spec, IH.
+Qed.
